@@ -35,7 +35,28 @@ def build14(desc):
     U = H.Universe([make_obj14(s) for s in desc["univ"]])
     t = B.new_tree(desc)
     B.add_nodes(t._root, desc["nodes"], U, bool(desc.get("typed")))
+    snapshot_universe(U)
     return t, U
+
+
+def snapshot_obj(o):
+    """a deep copy of what a caller-owned data object holds (the library must never change it)"""
+    if isinstance(o, DictWrapper):
+        return ("w", copy.deepcopy(o._dict))
+    if isinstance(o, dict):
+        return ("u", copy.deepcopy(o))
+    if isinstance(o, MutDC):
+        return ("m", dataclasses.asdict(o))
+    return ("r", repr(o))
+
+
+def snapshot_universe(U):
+    U.snap = [snapshot_obj(o) for o in U.objs]
+
+
+def changed_objects(U):
+    """indices of the caller's data objects that no longer hold what they held when the tree was built"""
+    return [i for i, sn in enumerate(getattr(U, "snap", [])) if snapshot_obj(U.objs[i]) != sn]
 
 
 def safe_hash(o) -> int:
@@ -197,6 +218,8 @@ def make_ser(kind, U):
         def ser(node, data):
             data["data"] = [data["data"], enc(node.data, U)]
         return ser
+    if kind == "stock":   # the library's own mapper for DictWrapper data (returns a copy of the wrapped dict)
+        return DictWrapper.serialize_mapper
     if kind == "tuple":   # outside the JSON-able subset: the mapper writes a tuple (JSON turns it into a list)
         def ser(node, data):
             data["data"] = (data["data"], enc(node.data, U))
@@ -234,6 +257,14 @@ def decode_item(kind, item, U):
         return item["data"]
     if kind in ("extra", "guid"):
         return dec(item["t"], U)
+    if kind == "stock":
+        # all entries but the structural ones are the wrapped dict; an object of the universe with that content is
+        # looked up (first match), as an application would look a record up by its fields
+        content = {k: v for k, v in item.items() if k not in ("children", "data_id", "node_id")}
+        for o in U.objs:
+            if isinstance(o, DictWrapper) and o._dict == content:
+                return o
+        return DictWrapper(content)
     return dec(payload(kind, item["data"]), U)
 
 
@@ -282,6 +313,13 @@ def after_mapper(kind, wire):
 def coq_smd(kind, U, tree_nodes):
     if kind == "none":
         return "SMnone"
+    if kind == "stock":
+        seen = {}
+        for n in tree_nodes:
+            i = U.index(n._data)
+            if i not in seen:
+                seen[i] = dict(n._data._dict)
+        return "(SMstock " + H.coq_list(f"({H.z(i)}, {jv_coq(v)})" for i, v in seen.items()) + ")"
     seen = {}
     for n in tree_nodes:
         i = U.index(n._data)
@@ -363,7 +401,7 @@ def coq_dtable(obj, kind, U) -> str:
     object (raw value or decoded), abstracted; or the error class of hashing it"""
     rows = {}
     for it in item_dicts(obj):
-        if kind in ("extra", "guid"):   # keyed by the item's own entries
+        if kind in ("extra", "guid", "stock"):   # keyed by the item's own entries
             v = {k: x for k, x in it.items() if k != "children"}
         elif "data" not in it:
             continue
@@ -463,7 +501,10 @@ class Prop:
             "another key and restored into item['data_id'] by the deserialize mapper) with the inverse deserialisation mapper (quick: all 8 up to 3 nodes, 3 of 8 at 4 "
             "nodes, 1 of 8 at 5 nodes; thorough: all up to 4 nodes, 3 of 8 at 5 nodes, 2 of 8 at 6 nodes); trees under a calc_data_id hook; typed trees; emptied trees (clear, remove of the last top "
             "node); trees reached through mutation histories (remove, remove(keep_children), remove_children, move_to, filter, add, "
-            "clear + re-add: every single operation on every node of every forest <= 3 nodes, pairs on 4 nodes, random histories); seeded random trees (5..18 nodes quick, 5..30 thorough); 47 hand-written + 150 (thorough 500) random dict lists (missing/unhashable data, bad data_id / node_id / children entries, non-dict items); Node.from_dict "
+            "clear + re-add: every single operation on every node of every forest <= 3 nodes, pairs on 4 nodes, random histories); "
+            "the same histories between TWO serialisations with the same mapper and the same data objects (stock "
+            "DictWrapper.serialize_mapper on DictWrapper data, harness mappers on plain-dict / dataclass / DictWrapper data, stock "
+            "Tree.serialize_mapper on strings), all caller-owned data objects snapshotted before and compared after; seeded random trees (5..18 nodes quick, 5..30 thorough); 47 hand-written + 150 (thorough 500) random dict lists (missing/unhashable data, bad data_id / node_id / children entries, non-dict items); Node.from_dict "
             "into every node of every forest <= 3 (thorough 4) nodes x 3 calc_data_id hooks x 6 item lists.  Every dump goes through "
             "json.dumps/json.loads before from_dict.  A case is one tree (or one dict list); distinct = distinct desc; non-trivial = >= 3 nodes")
     exhaustive_note = ("all shapes <= 3 nodes x all labelings (2 strings x 5 data_id choices; quick: 2 choices at 3 nodes); "
@@ -500,7 +541,9 @@ class Prop:
               "tuple on purpose).  Tuple-valued data_ids (possible through a calc_data_id hook) are outside DataIdType = str|int and "
               "outside the model: named exclusion, with an Example of what JSON does to them.  'node_id' entries of hand-written dicts "
               "ARE modelled (nid_of / nid_check: int(), assert, order of the checks; str ids as ASCII digits only).  'from_dict does "
-              "not modify the caller's structure' is outside a pure value model: checked by the harness oracle (snapshot check).  Not "
+              "not modify the caller's structure' and 'serialising does not modify the caller's data objects (a mapper result must "
+              "not alias them)' are outside a pure value model: checked by the harness oracle (snapshots of the structure and of every "
+              "caller-owned data object, incl. a second serialisation after a mutation history with the same mapper and objects).  Not "
               "modelled: the partial state a refused Node.from_dict leaves behind; deserialize mappers that change the 'children' "
               "entry.  Print Assumptions: closed under the global context for every theorem."),
         technique="Coq proof about an executable Gallina model + differential correspondence check (vm_compute) + Python oracle",
@@ -633,6 +676,45 @@ class Prop:
             d = hist_desc(shape, n, hist, sm=rng.choice(["none", "none", "set", "extra", "guid"]))
             if ok(d):
                 yield d
+        # (3c) serialize -> mutate the same tree -> serialize again with the SAME mapper and the SAME data objects
+        #      (DictWrapper data with the stock DictWrapper.serialize_mapper, plain-dict / dataclass / DictWrapper data
+        #      with the harness's mappers, strings with the stock Tree.serialize_mapper); every caller-owned data object
+        #      is snapshotted when the tree is built and must be unchanged afterwards; the second output is what is
+        #      compared with the model (evaluated on the mutated tree) and the oracle
+        def warm_desc(fam, shape, n, hist, j=0):
+            if fam == "stock":
+                univ = ["w:1", "w:2", "w:3", "w:4", "w:1", "w:2"]
+                return dict(univ=univ, sm="stock", warm=True, hist=hist,
+                            nodes=B.shape_to_nodes(shape, lambda i, dp, s: (i % 6, None, None)))
+            if fam == "dicts":
+                univ = ["u:1", "m:2", "w:3", "u:4", "s:a", "m:5"]
+                return dict(univ=univ, sm=["set", "extra", "guid", "none", "new"][j % 5], warm=True, hist=hist,
+                            nodes=B.shape_to_nodes(shape, lambda i, dp, s: (i % 6, None, f"k{i}")))
+            return dict(univ=[f"s:n{i}" for i in range(n)], sm="none", tree_mapper=True, warm=True, hist=hist,
+                        nodes=B.shape_to_nodes(shape, lambda i, dp, s: (i, None, None if i % 2 else f"h{i}")))
+
+        wn = (2, 3) if tier == "quick" else (2, 3, 4)
+        for n in wn:
+            for si, shape in enumerate(H.forests(n)):
+                for k in range(n):
+                    ops = [["remove", k], ["remove_keep", k], ["remove_children", k], ["move_top", k]]
+                    ops += [["move", k, j] for j in range(n) if j != k]
+                    for oi, op in enumerate(ops):
+                        fams = ["stock", "dicts", "tree"] if n <= 2 or tier != "quick" else [["stock", "dicts", "tree"][(si + k + oi) % 3], "stock"]
+                        for fam in dict.fromkeys(fams):
+                            d = warm_desc(fam, shape, n, [op], j=si + k + oi)
+                            if ok(d):
+                                yield d
+        for _ in range(30 if tier == "quick" else 300):
+            n = rng.randint(2, 7)
+            shape = H.random_shape(rng, n, deep=rng.choice([0.3, 0.7]))
+            hist = []
+            for _i in range(rng.randint(1, 4)):
+                op = rng.choice(["remove", "remove_keep", "remove_children", "move", "move_top", "filter"])
+                hist.append([op, rng.randrange(8), rng.randrange(8)] if op == "move" else [op, rng.randrange(8)])
+            d = warm_desc(rng.choice(["stock", "stock", "dicts", "tree"]), shape, n, hist, j=rng.randrange(5))
+            if ok(d):
+                yield d
         # (4) random
         nrand = 60 if tier == "quick" else 400
         for _ in range(nrand):
@@ -718,10 +800,23 @@ class Prop:
             return self.run_into(desc)
         tree, U = build14(desc)
         apply_prep(tree, desc.get("prep"))
-        apply_hist(tree, desc.get("hist"))
         kind = desc.get("sm", "none")
-        nodes = B.all_nodes(tree._root)
         ser, deser = make_ser(kind, U), make_deser(kind, U)
+        if desc.get("tree_mapper"):      # the library's default mapper of Tree (returns the dict it was given)
+            ser = Tree.serialize_mapper
+        warm_fail = None
+        if desc.get("warm"):
+            # serialize, THEN mutate the same tree, then serialize again with the same mapper and the same data
+            # objects: what the first call did must not show in the second
+            first = call(lambda: tree.to_dict_list(mapper=ser))
+            for n0 in B.all_nodes(tree._root)[:2]:
+                call(lambda n0=n0: n0.to_dict(mapper=ser))
+            if is_err(first):
+                warm_fail = f"to_dict_list: first serialisation raised {H.ERR_NAMES.get(first[1], '?')}"
+            elif changed_objects(U):
+                warm_fail = f"snapshot: to_dict_list modified the caller's data object(s) {changed_objects(U)}"
+        apply_hist(tree, desc.get("hist"))
+        nodes = B.all_nodes(tree._root)
         finput = coq_forest14(tree._root, U)
         smd = coq_smd(kind, U, nodes)
 
@@ -763,8 +858,11 @@ class Prop:
         wire = wire0
         obs = [[jv_sx(d) for d in dump], [jv_sx(d) for d in sub_dumps], obs_rebuilt(rebuilt, U)]
         coq_input = f"(CRound {finput} {smd} {H.coq_list(H.z(H.nid(n)) for n in subs)} {dt} {nxt})"
-        fail = fail or self.oracle(tree, U, kind, dump, subs, sub_dumps, wire, rebuilt)
+        fail = warm_fail or fail or self.oracle(tree, U, kind, dump, subs, sub_dumps, wire, rebuilt)
+        if not fail and changed_objects(U):
+            fail = f"snapshot: serialising / loading modified the caller's data object(s) {changed_objects(U)}"
         stats["rebuilt"] = "error" if is_err(rebuilt) else "ok"
+        stats["warm"] = bool(desc.get("warm"))
         return Case(desc=desc, coq_input=coq_input, impl_obs=obs, oracle_fail=fail, nontrivial=nontrivial, key=key, stats=stats)
 
     def run_load(self, desc) -> Case:
@@ -893,6 +991,17 @@ class Prop:
                 w = f"{where}/{k}"
                 if type(d) is not dict:
                     return f"mirror: {w}: not a dict"
+                if kind == "stock":
+                    # the entries the caller's dict held when the tree was built (+ children iff the node has children)
+                    exp = dict(U.snap[U.index(n._data)][1])
+                    got = {k: v for k, v in d.items() if k != "children"}
+                    if jv_sx(got) != jv_sx(exp) or ("children" in d) != bool(n._children):
+                        return f"mirror keys: {w}: keys {sorted(d.keys())} expected {sorted(exp) + (['children'] if n._children else [])}"
+                    if n._children:
+                        r = mirror(n._children, d["children"], w)
+                        if r:
+                            return r
+                    continue
                 custom = is_custom(n)
                 keys = {"data"}
                 if kind in ("new", "newdrop"):
@@ -985,14 +1094,17 @@ class Prop:
                     return f"round trip shape: {w}: parent pointer"
                 O.append(o)
                 R.append(r)
-                if kind == "none":
+                if kind == "stock":
+                    if not isinstance(r._data, DictWrapper) or r._data._dict != U.snap[U.index(o._data)][1]:
+                        return f"round trip data: {w}: {r._data!r} for {o._data!r}"
+                elif kind == "none":
                     if type(r._data) is not str or r._data != str(o._data):
                         return f"round trip data: {w}: {r._data!r} for {o._data!r}"
                 else:
                     if type(r._data) is not type(o._data) or r._data != o._data:
                         return f"round trip data: {w}: {r._data!r} for {o._data!r}"
                 custom = is_custom(o)
-                if hyp or (custom and kind != "newdrop"):
+                if hyp or (custom and kind not in ("newdrop", "stock")):
                     want = o._data_id
                 else:
                     want = hash(r._data)
